@@ -3,6 +3,12 @@
 
    Differences from Core/DInv.v:
    - the semantic side (E, tr, durge, clos, ...) is Core's, for the translated program (PSem.v);
+   - observers are VIRTUAL ([obs_ok]): a query at a revision with a durability, that is owed the
+     observer clause by every memo in its closure.  Every memo is one; so is every dependency
+     that a snapshot flattened away ([good]): the edges of a restored memo are the leaves of
+     its flattened dependencies, and the memo is covered by them ([mo_in], [mo_q]);
+   - [fm] (flat mode): flattened memos are allowed and all durabilities are LOW; otherwise every
+     memo records its direct reads ([mo_flat]);
    - the observer clause [mo_obs] speaks about the memos that EXIST (a restored database has
      lost the memos of non-persisted functions and the value-less ones);
    - no stamp-provenance clause (mo_stamp / ext_mono): the backdate-violation panic is not
@@ -19,6 +25,9 @@ Variable rank : qkey -> nat.
 Hypothesis Hrank : calls_below prog rank.
 Variable NF : nat.
 Hypothesis Hbound : forall q, (rank q < NF)%nat.
+(* flat mode: memos whose edges are the flattening of their reads (restored memos) are allowed;
+   all durabilities are LOW.  Otherwise every memo records its direct reads. *)
+Variable fm : bool.
 Notation E := (E prog NF).
 Notation tr := (tr prog NF).
 Notation envat := (envat prog NF).
@@ -31,22 +40,74 @@ Definition lcs (s : db) (k : dur) : rev := last_changed (d_revs s) k.
 Definition obs_pre (H : hist) (D : dhist) (s : db) (v : rev) (d : qkey) (md : memo) : Prop :=
   m_changed md <= v \/ exists k, durge H D v k d /\ lcs s k <= v.
 
+(* the static call relation, transitively: what a recorded edge may point to (a direct callee,
+   or, for a restored memo, a callee of a dependency that was flattened away) *)
+Inductive reach : qkey -> qkey -> Prop :=
+| reach_one q d : calls (prog q) d -> reach q d
+| reach_step q d e : calls (prog q) d -> reach d e -> reach q e.
+
+Lemma reach_rank q d : reach q d -> (rank d < rank q)%nat.
+Proof.
+  induction 1 as [q d Hc | q d e Hc _ IH]; [apply Hrank; exact Hc|].
+  pose proof (Hrank q d Hc). lia.
+Qed.
+
+Lemma reach_trans q d e : reach q d -> reach d e -> reach q e.
+Proof.
+  induction 1 as [q d Hc | q d x Hc _ IH]; intros He.
+  - eapply reach_step; eassumption.
+  - eapply reach_step; [exact Hc | apply IH; exact He].
+Qed.
+
+(* A (virtual) observer: query g as evaluated at revision w, with durability k.  Every memo is
+   one (at its verified_at, with its recorded durability); so is every dependency that was
+   flattened away, at the revision its memo was verified at when it was flattened. *)
+Record obs_ok (H : hist) (D : dhist) (s : db) (g : qkey) (w : rev) (k : dur) : Prop := {
+  ob_order : 1 <= w /\ w <= cur s;
+  ob_durge : durge H D w k g;
+  ob_dur3 : k <= 3;
+  ob_obs : forall d md, clos H w g d -> d_memo s d = Some md -> obs_pre H D s w d md ->
+           E H w d = E H (m_verified md) d /\ k <= m_dur md
+}.
+
+(* The dependency d of a memo verified at v with edges L was flattened away: its reads at some
+   revision rho >= v are covered by L — inputs are in L, function reads are in L or were flattened
+   away in turn — and it is still an observer at rho.  (In flat mode a dependency with a recorded
+   durability >= 1 reads no input at all: nothing is required of L.) *)
+Inductive good (H : hist) (D : dhist) (s : db) (L : list edge) (v : rev) : qkey -> Prop :=
+| good_never d a k : fm = true -> 1 <= k -> a <= cur s -> durge H D a k d -> good H D s L v d
+| good_exp d rho k :
+    obs_ok H D s d rho k -> v <= rho ->
+    (forall x, In x (tr H rho d) -> ~ untr x) ->
+    (forall i, In (RIn i) (tr H rho d) -> In (EIn i) L) ->
+    (forall d', In (RQ d') (tr H rho d) -> ~ In (EQ d') L -> good H D s L v d') ->
+    good H D s L v d.
+
 Record dmemo_ok (H : hist) (D : dhist) (s : db) (q : qkey) (m : memo) : Prop := {
   mo_order : 1 <= m_verified m /\ m_changed m <= m_verified m /\ m_verified m <= cur s;
   mo_val : forall x, m_val m = Some x -> x = E H (m_verified m) q;
-  mo_reads_in : forall i, In (RIn i) (tr H (m_verified m) q) ->
-                In (EIn i) (m_edges m) \/ D (m_verified m) i = 3;
-  mo_reads_q : forall d, In (RQ d) (tr H (m_verified m) q) ->
-               In (EQ d) (m_edges m) \/ durge H D (m_verified m) 3 d;
+  mo_in : forall i, In (RIn i) (tr H (m_verified m) q) -> In (EIn i) (m_edges m);
+  mo_q : m_untracked m = false ->
+         forall d, In (RQ d) (tr H (m_verified m) q) -> ~ In (EQ d) (m_edges m) ->
+         good H D s (m_edges m) (m_verified m) d;
   mo_reads_cell : forall x, In x (tr H (m_verified m) q) -> untr x -> m_untracked m = true;
-  mo_edges_q : forall d, In (EQ d) (m_edges m) -> In (RQ d) (tr H (m_verified m) q);
-  mo_untr : m_untracked m = true -> m_dur m = 0;
+  mo_edges_reach : forall d, In (EQ d) (m_edges m) -> reach q d;
+  mo_flat : fm = true \/ forall d, In (RQ d) (tr H (m_verified m) q) -> In (EQ d) (m_edges m);
   mo_durge : durge H D (m_verified m) (m_dur m) q;
   mo_dur3 : m_dur m <= 3;
   mo_obs : forall d md, clos H (m_verified m) q d -> d_memo s d = Some md ->
            obs_pre H D s (m_verified m) d md ->
-           E H (m_verified m) d = E H (m_verified md) d /\ m_dur m <= m_dur md
+           E H (m_verified m) d = E H (m_verified md) d /\ m_dur m <= m_dur md;
+  (* a memo of durability LOW was verified by a walk or an execution: its dependencies that
+     have memos were verified then or later *)
+  mo_sync : m_dur m = 0 -> forall d md, In (EQ d) (m_edges m) -> d_memo s d = Some md ->
+            m_verified m <= m_verified md
 }.
+
+Lemma obs_of_memo H D s q m : dmemo_ok H D s q m -> obs_ok H D s q (m_verified m) (m_dur m).
+Proof.
+  intros [a b c d e f g h i j k]. constructor; auto. lia.
+Qed.
 
 Record DInv (H : hist) (D : dhist) (s : db) : Prop := {
   inv_cur : 1 <= cur s;
@@ -59,7 +120,10 @@ Record DInv (H : hist) (D : dhist) (s : db) : Prop := {
   (* the write rule: an input whose level had not been written after r is the same at r+1 *)
   inv_wr : forall r i, r < cur s -> lcs s (D r i) <= r ->
            sn_in (H (r + 1)) i = sn_in (H r) i /\ D (r + 1) i = D r i;
-  inv_memo : forall q m, d_memo s q = Some m -> dmemo_ok H D s q m
+  inv_memo : forall q m, d_memo s q = Some m -> dmemo_ok H D s q m;
+  (* flat mode: no input has, or ever had, a durability above LOW *)
+  inv_lowD : fm = true -> forall r i, D r i = 0;
+  inv_lowrev : fm = true -> forall k, 1 <= k -> lcs s k <= 1
 }.
 
 (* ---------------------------------------------------------------- stability from the write rule *)
@@ -92,7 +156,7 @@ Proof.
 Qed.
 
 (* ---------------------------------------------------------------- extension within a revision *)
-Record dext (s s' : db) : Prop := {
+Record dext (H : hist) (D : dhist) (s s' : db) : Prop := {
   ext_revs : d_revs s' = d_revs s;
   ext_in : d_in s' = d_in s;
   ext_cell : d_cell s' = d_cell s;
@@ -101,27 +165,32 @@ Record dext (s s' : db) : Prop := {
   ext_valid : forall q m, d_memo s q = Some m -> m_verified m = cur s -> m_val m <> None ->
               d_memo s' q = Some m;
   ext_vcur : forall q m, d_memo s q = Some m -> m_verified m = cur s ->
-             exists m', d_memo s' q = Some m' /\ m_verified m' = cur s /\ m_dur m <= m_dur m'
+             exists m', d_memo s' q = Some m' /\ m_verified m' = cur s /\ m_dur m <= m_dur m';
+  (* memos are only stored with verified_at = the current revision *)
+  ext_old : forall q m', d_memo s' q = Some m' -> m_verified m' < cur s -> d_memo s q = Some m';
+  (* observers stay observers *)
+  ext_obs : forall g w k, obs_ok H D s g w k -> obs_ok H D s' g w k
 }.
 
-Lemma dext_refl s : dext s s.
+Lemma dext_refl H D s : dext H D s s.
 Proof.
   constructor; auto.
   intros q m Hm Hv. exists m. split; [exact Hm|]. split; [exact Hv | lia].
 Qed.
 
-Lemma dext_cur s s' : dext s s' -> cur s' = cur s.
-Proof. intros [Hr _ _ _ _ _ _]. unfold cur. rewrite Hr. reflexivity. Qed.
+Lemma dext_cur H D s s' : dext H D s s' -> cur s' = cur s.
+Proof. intros [Hr _ _ _ _ _ _ _ _]. unfold cur. rewrite Hr. reflexivity. Qed.
 
-Lemma dext_trans s1 s2 s3 : dext s1 s2 -> dext s2 s3 -> dext s1 s3.
+Lemma dext_trans H D s1 s2 s3 : dext H D s1 s2 -> dext H D s2 s3 -> dext H D s1 s3.
 Proof.
-  intros H12 H23. pose proof (dext_cur _ _ H12) as Hc.
-  destruct H12 as [a1 b1 c1 d1 g1 e1 f1], H23 as [a2 b2 c2 d2 g2 e2 f2].
+  intros H12 H23. pose proof (dext_cur _ _ _ _ H12) as Hc.
+  destruct H12 as [a1 b1 c1 d1 g1 e1 f1 o1 p1], H23 as [a2 b2 c2 d2 g2 e2 f2 o2 p2].
   constructor; try congruence; auto.
   - intros q m Hm Hv Hx. apply e2; [apply e1; assumption | rewrite Hc; exact Hv | exact Hx].
   - intros q m Hm Hv. destruct (f1 q m Hm Hv) as (m' & Hm' & Hv' & Hd').
     destruct (f2 q m' Hm') as (m'' & Hm'' & Hv'' & Hd''); [rewrite Hc; exact Hv'|].
     exists m''. split; [exact Hm''|]. split; [rewrite <- Hc; exact Hv'' | lia].
+  - intros q m' Hm' Hv. apply o1; [|exact Hv]. apply o2; [exact Hm' | rewrite Hc; exact Hv].
 Qed.
 
 (* a computation for a query of rank < k leaves memos of rank >= k alone *)
@@ -152,21 +221,64 @@ Lemma obs_pre_core_eq H D s s' v d md :
   d_revs s' = d_revs s -> obs_pre H D s v d md -> obs_pre H D s' v d md.
 Proof. intros Hr. unfold obs_pre, lcs. rewrite Hr. auto. Qed.
 
+Lemma obs_ok_core_eq H D s s' g w k : dcore_eq s s' -> obs_ok H D s g w k -> obs_ok H D s' g w k.
+Proof.
+  intros Hc Ho. pose proof (dcore_eq_cur _ _ Hc) as Hcur.
+  destruct Hc as (Hr & Hi & _ & Hmm). destruct Ho as [a b c d].
+  constructor; rewrite ?Hcur; auto.
+  intros d0 md Hd0 Hmd Hp. apply (d d0 md Hd0); [rewrite <- Hmm; exact Hmd|].
+  apply (obs_pre_core_eq H D s' s); [congruence | exact Hp].
+Qed.
+
+Lemma obs_ok_same H D s s' g w k :
+  d_revs s' = d_revs s -> d_memo s' = d_memo s -> obs_ok H D s g w k -> obs_ok H D s' g w k.
+Proof.
+  intros Hr Hmm [a b c d]. constructor; auto.
+  - unfold cur in *. rewrite Hr. exact a.
+  - intros d0 md Hd0 Hmd Hp. apply (d d0 md Hd0); [rewrite <- Hmm; exact Hmd|].
+    apply (obs_pre_core_eq H D s' s); [congruence | exact Hp].
+Qed.
+
+Lemma good_mono H D s s' L v d :
+  cur s <= cur s' ->
+  (forall g w k, obs_ok H D s g w k -> obs_ok H D s' g w k) ->
+  good H D s L v d -> good H D s' L v d.
+Proof.
+  intros Hc Hm Hg. induction Hg as [d a k Hf Hk Ha Hd | d rho k Ho Hv Hu Hi Hq IH].
+  - apply (good_never H D s' L v d a k Hf Hk); [lia | exact Hd].
+  - eapply good_exp; eauto.
+Qed.
+
 Lemma dmemo_ok_core_eq H D s s' q m : dcore_eq s s' -> dmemo_ok H D s q m -> dmemo_ok H D s' q m.
 Proof.
   intros Hc Hm. pose proof (dcore_eq_cur _ _ Hc) as Hcur.
-  destruct Hc as (Hr & Hi & _ & Hmm).
-  destruct Hm as [a b c d e f g h i j].
+  pose proof Hc as (Hr & Hi & _ & Hmm).
+  destruct Hm as [a b c d e f g h i j k].
   constructor; rewrite ?Hcur; auto.
-  intros d0 md Hd0 Hmd Hp. apply (j d0 md Hd0); [rewrite <- Hmm; exact Hmd|].
-  apply (obs_pre_core_eq H D s' s); [congruence | exact Hp].
+  - intros Hu0 d0 Hd0 Hn. apply (good_mono H D s s'); [lia | intros; eapply obs_ok_core_eq; eassumption | auto].
+  - intros d0 md Hd0 Hmd Hp. apply (j d0 md Hd0); [rewrite <- Hmm; exact Hmd|].
+    apply (obs_pre_core_eq H D s' s); [congruence | exact Hp].
+  - intros Hz d0 md Hd0 Hmd. apply (k Hz d0 md Hd0). rewrite <- Hmm; exact Hmd.
+Qed.
+
+Lemma dmemo_ok_same H D s s' q m :
+  d_revs s' = d_revs s -> d_memo s' = d_memo s -> dmemo_ok H D s q m -> dmemo_ok H D s' q m.
+Proof.
+  intros Hr Hmm Hm.
+  assert (Hcur : cur s' = cur s) by (unfold cur; rewrite Hr; reflexivity).
+  destruct Hm as [a b c d e f g h i j k].
+  constructor; rewrite ?Hcur; auto.
+  - intros Hu0 d0 Hd0 Hn. apply (good_mono H D s s'); [lia | intros; eapply obs_ok_same; eassumption | auto].
+  - intros d0 md Hd0 Hmd Hp. apply (j d0 md Hd0); [rewrite <- Hmm; exact Hmd|].
+    apply (obs_pre_core_eq H D s' s); [congruence | exact Hp].
+  - intros Hz d0 md Hd0 Hmd. apply (k Hz d0 md Hd0). rewrite <- Hmm; exact Hmd.
 Qed.
 
 Lemma DInv_core_eq H D s s' : dcore_eq s s' -> DInv H D s -> DInv H D s'.
 Proof.
   intros Hc HI. pose proof (dcore_eq_cur _ _ Hc) as Hcur.
   pose proof Hc as (Hr & Hi & Hce & Hm).
-  destruct HI as [a a' b b' c d e f g].
+  destruct HI as [a a' b b' c d e f g l1 l2].
   constructor; unfold lcs in *; rewrite ?Hcur, ?Hi, ?Hce, ?Hm, ?Hr; auto.
   intros q m Hq. apply (dmemo_ok_core_eq H D s); [exact Hc | apply g; exact Hq].
 Qed.
@@ -194,32 +306,48 @@ Definition fresh_memo (v : val) (now : rev) (ch : rev) (fr : frame) : memo :=
 
 (* The frame rule: store a memo verified now.  Besides the new memo being ok, every other
    memo that observes q must be served by the new memo. *)
+Lemma obs_store H D s q m g w k :
+  m_verified m = cur s ->
+  obs_ok H D s g w k ->
+  (clos H w g q -> obs_pre H D s w q m -> E H w q = E H (cur s) q /\ k <= m_dur m) ->
+  obs_ok H D (store s q m) g w k.
+Proof.
+  intros Hv [a b c d] Hq. constructor; rewrite ?cur_store; auto.
+  intros d0 md Hd0 Hmd Hp0. unfold store in Hmd; cbn in Hmd. unfold upd in Hmd.
+  destruct (key_eqb_spec q d0) as [<- | Hne0].
+  - injection Hmd as <-. rewrite Hv. apply Hq; [exact Hd0 | exact Hp0].
+  - apply (d d0 md Hd0 Hmd). exact Hp0.
+Qed.
+
 Lemma DInv_store H D s q m :
   DInv H D s ->
   m_verified m = cur s ->
   dmemo_ok H D (store s q m) q m ->
-  (forall g mg, d_memo s g = Some mg -> g <> q -> clos H (m_verified mg) g q ->
-     obs_pre H D s (m_verified mg) q m ->
-     E H (m_verified mg) q = E H (cur s) q /\ m_dur mg <= m_dur m) ->
+  (forall g w k, obs_ok H D s g w k -> clos H w g q ->
+     obs_pre H D s w q m ->
+     E H w q = E H (cur s) q /\ k <= m_dur m) ->
   (forall m0, d_memo s q = Some m0 -> m_verified m0 = cur s ->
      (m_val m0 <> None -> m0 = m) /\ m_dur m0 <= m_dur m) ->
-  DInv H D (store s q m) /\ dext s (store s q m).
+  DInv H D (store s q m) /\ dext H D s (store s q m).
 Proof.
   intros HI Hv Hok Hobs Hsame.
-  destruct HI as [a a' b b' c d e f g].
+  assert (Hall : forall g w k, obs_ok H D s g w k -> obs_ok H D (store s q m) g w k).
+  { intros g w k Ho. apply obs_store; [exact Hv | exact Ho|]. intros Hcl Hp. apply (Hobs g w k Ho Hcl Hp). }
+  destruct HI as [a a' b b' c d e f g l1 l2].
   split.
   - constructor; rewrite ?cur_store; auto.
     intros p mp Hp. unfold store in Hp; cbn in Hp. unfold upd in Hp.
     destruct (key_eqb_spec q p) as [<- | Hne].
     + injection Hp as <-. exact Hok.
-    + specialize (g p mp Hp). destruct g as [g1 g2 g3 g4 g5 g6 g7 g8 g9 g10].
+    + specialize (g p mp Hp). pose proof (obs_of_memo _ _ _ _ _ g) as Hop.
+      destruct g as [g1 g2 g3 g4 g5 g6 g7 g8 g9 g10 g12].
       constructor; rewrite ?cur_store; auto.
-      intros d0 md Hd0 Hmd Hp0.
-      unfold store in Hmd; cbn in Hmd. unfold upd in Hmd.
-      destruct (key_eqb_spec q d0) as [<- | Hne0].
-      * injection Hmd as <-. rewrite Hv.
-        apply (Hobs p mp Hp); [congruence | exact Hd0 | exact Hp0].
-      * apply (g10 d0 md Hd0 Hmd). exact Hp0.
+      * intros Hu0 d0 Hd0 Hn. apply (good_mono H D s); [rewrite cur_store; lia | exact Hall | auto].
+      * apply (ob_obs _ _ _ _ _ _ (Hall _ _ _ Hop)).
+      * intros Hz d0 md Hd0 Hmd. unfold store in Hmd; cbn in Hmd. unfold upd in Hmd.
+        destruct (key_eqb_spec q d0) as [<- | Hne0].
+        -- injection Hmd as <-. rewrite Hv. lia.
+        -- apply (g12 Hz d0 md Hd0 Hmd).
   - constructor; try reflexivity; auto.
     + intros p mp Hp Hvp Hxp. unfold store; cbn. unfold upd.
       destruct (key_eqb_spec q p) as [<- | Hne]; [|exact Hp].
@@ -229,6 +357,9 @@ Proof.
       * exists m. split; [reflexivity|]. split; [exact Hv|].
         destruct (Hsame mp Hp Hvp) as [_ Hle]. exact Hle.
       * exists mp. split; [exact Hp|]. split; [exact Hvp | lia].
+    + intros p mp Hp Hvp. unfold store in Hp; cbn in Hp. unfold upd in Hp.
+      destruct (key_eqb_spec q p) as [<- | Hne]; [|exact Hp].
+      injection Hp as <-. lia.
 Qed.
 
 Lemma dtouch_store s q m k : (rank q < k)%nat -> dtouch_below s (store s q m) k.
